@@ -48,7 +48,8 @@ class Repl{b}:
 
 
 def prelude(base, context=False):
-    hooks = HOOKS.format(ctxarg=", context=None" if context else "", ctxval="context" if context else "None")
+    hooks = HOOKS.format(ctxarg=", context=None" if context else "", ctxval="context" if context else "None",
+           bcomma="" if base == "object" else ", " + base)
     cfg = "    class Config(BaseConfig):\n        code_generation_options = [ADD_SERIALIZATION_CONTEXT]\n" if context else ""
     imp = {"DataClassDictMixin": "", "DataClassORJSONMixin": "from mashumaro.mixins.orjson import DataClassORJSONMixin\n",
            "DataClassMessagePackMixin": "from mashumaro.mixins.msgpack import DataClassMessagePackMixin\n", "object": ""}[base]
@@ -67,6 +68,18 @@ class M2{b}:
 class Child(M1):
     z: int = 0
 
+@dataclass
+class Chain{b}:
+    v: int
+    nxt: Optional[Self] = None
+    more: List[Self] = field(default_factory=list)
+{cfg}{hooks}
+BT = TypeVar("BT")
+
+@dataclass
+class Box(Generic[BT]{bcomma}):
+    item: BT
+{cfg}{hooks}
 @dataclass
 class PostOnly{b}:
     p: int = 0
@@ -103,7 +116,8 @@ class OutM{b}:
     po: List[PostOnly]
     opo: Optional[PostOnly] = None
 {cfg}{hooks}
-'''.format(b=b, cfg=cfg, hooks=hooks, ctxarg=", context=None" if context else "", ctxval="context" if context else "None")
+'''.format(b=b, cfg=cfg, hooks=hooks, ctxarg=", context=None" if context else "", ctxval="context" if context else "None",
+           bcomma="" if base == "object" else ", " + base)
 
 
 def harnesses(tier, seed):
@@ -111,11 +125,11 @@ def harnesses(tier, seed):
     combos = [("DataClassDictMixin", "mixin", False), ("object", "codec", False), ("DataClassDictMixin", "mixin", True),
               ("DataClassORJSONMixin", "orjson", False), ("DataClassMessagePackMixin", "msgpack", False),
               ("DataClassDictMixin", "codec", False)]
-    types = ["Out", "OutU", "OutM", "Repl", "List[Repl]", "Union[M1, M2]", "List[Union[M1, M2]]", "Optional[M2]", "Dict[str, Union[M2, M1]]",
+    types = ["Out", "OutU", "OutM", "Chain", "Repl", "List[Repl]", "Union[Box[int], M2]", "List[Union[Box[int], M1]]", "Union[M1, M2]", "List[Union[M1, M2]]", "Optional[M2]", "Dict[str, Union[M2, M1]]",
              "Tuple[M1, ...]"]
     for base, variant, context in combos:
         for t in types:
-            if variant != "codec" and not (t.startswith("Out") or t == "Repl"):
+            if variant != "codec" and not (t.startswith("Out") or t in ("Repl", "Chain")):
                 continue
             if t.endswith("Repl") or t.endswith("Repl]"):
                 if context:
